@@ -77,6 +77,9 @@ class RC:
                 return all(self.expr(a, S) for a in e.get('a', [])) and (e.get('obj') is None or self.expr(e['obj'], S))
             if name.startswith('amgcl::math::') and not e.get('mr'):
                 return all(self.expr(a, S) for a in e.get('a', []))
+            g = self.u.by_id.get(e.get('fd'))
+            if g is not None and 'shared_ptr' in self.u.type(g.j.get('ret')) and null_is_rank_consistent(g):
+                return True   # only the null-ness of the returned pointer is observable in conditions
             return False
         if k == 'bin':
             if e['op'] in ('=', '+=', '-=', '*=', '/='):
@@ -167,6 +170,30 @@ class RC:
             transfer(b, st, record=True)
         exit_state = IN.get(cfg.exit)
         return at_ret, exit_state
+
+
+def null_is_rank_consistent(g):
+    """a function returning a shared_ptr returns null only under rank-consistent conditions (e.g. a global size is zero)"""
+    c = getattr(g, '_null_rc', None)
+    if c is not None:
+        return c
+    g._null_rc = False
+    rc = RC(g)
+    ok = True
+    nulls = 0
+    for r in g.nodes.values():
+        if r['k'] != 'ret' or r.get('e') is None:
+            continue
+        e = unwrap(r['e'])
+        is_null = (e['k'] == 'ctor' and not e.get('a')) or (e['k'] == 'lit' and e.get('t') == 'null')
+        if not is_null:
+            continue
+        nulls += 1
+        conds = [a['c'] for a in g.ancestors(r) if a['k'] == 'if']
+        if not conds or not all(rc.expr(c_, set()) for c_ in conds):
+            ok = False
+    g._null_rc = ok
+    return ok
 
 
 def rule_A(ck, units):
